@@ -329,7 +329,7 @@ class QueryGen:
             if what == "drop":
                 return {"op": "hdrop", "k": self.r.randint(0, 5)}
             if what == "recheck":
-                return {"op": "hrecheck"}
+                return {"op": "hrecheck", "pseed": self.r.randint(0, 10 ** 9)}
             if what == "edit":
                 e = self.edit.next_edit()
                 if isinstance(e, list):
@@ -457,6 +457,8 @@ class C11(Prop):
             self.check_query(w, ev)
         elif op == "hrecheck":
             self.recheck(w)
+            if ev.get("pseed") is not None:
+                self.bulk_held(w, ev["pseed"])
 
     # ---------------------------------------------------------------------------------
     def check_query(self, w, ev):
@@ -578,6 +580,59 @@ class C11(Prop):
                 again = HRef.from_sequence(list(path))
                 if again is not h or hash(again) != hash(h):
                     raise Violation("C11.flyweight_identity", "held", "held reference lost its identity")
+
+
+    def bulk_held(self, w, pseed):
+        """After the edits: held references (some of them stale by now) as the roots of ONE bulk query. The answer is the
+        union of the answers for each root alone - a stale root contributes nothing, whatever stands next to it."""
+        import random
+        flat = []
+        for res in w.held_hrefs:
+            for h in res:
+                if not any(h is x for x in flat):
+                    flat.append(h)
+        if len(flat) < 2:
+            return
+        n = self._netlist(w)
+        try:
+            en = Enum(n)
+        except OverflowError:
+            return
+        if n.top_instance is None or netlist_of_top(n.top_instance) is not n or not self.pins_inside(en):
+            # a wire still lists the pin of a child that was removed (or the like): what "the elaborated design" is, is
+            # not defined for such a state (the same precondition as for the exact-set comparison of single queries)
+            w.count("probe.bulk_held_skipped_not_contained")
+            return
+        pr = random.Random(pseed)
+        for _ in range(3):
+            sample = pr.sample(flat, min(len(flat), pr.randint(2, 5)))
+            sib = [h for h in flat if h.parent is sample[0].parent and not any(h is x for x in sample)]
+            pr.shuffle(sib)
+            sample += sib[:3]
+            pr.shuffle(sample)
+            rec = pr.random() < 0.5
+            for fname in sorted(FNS):
+                fn = FNS[fname]
+                try:
+                    singles = [list(fn(h, recursive=rec)) for h in sample]
+                except Exception:
+                    continue   # a root kind this function does not take
+                want = set(id(x) for sres in singles for x in sres)
+                for order, tag in ((sample, "fwd"), (list(reversed(sample)), "rev")):
+                    try:
+                        got = list(fn(list(order), recursive=rec))
+                    except Exception as x:
+                        raise Violation("C11.raised", "%s:bulk_held:%s" % (fname, type(x).__name__),
+                                        "bulk query over held references raised %r" % (x,))
+                    w.count("probe.bulk_held_queries")
+                    if any(not h.is_valid for h in got):
+                        raise Violation("C11.invalid_result", "%s/bulk_held" % fname,
+                                        "a bulk query rooted at held references returns a reference that reports invalid")
+                    ids = set(id(x) for x in got)
+                    if ids != want:
+                        raise Violation("C11.enum.%s" % ("extra" if ids - want else "missing"), "%s/bulk_held" % fname,
+                                        "bulk answer has %d references, the union of the single answers %d" % (len(ids), len(want)))
+                del singles
 
 
 PROP = C11
